@@ -70,7 +70,15 @@ class Oracles:
                 self.memo[k] = r
                 return list(r)
             if self.concrete is not None:
-                raise Unsupported("conversion of %r not tabulated" % text)
+                # concrete validation: a text the up-front table did not foresee is converted by the real okkhor now
+                try:
+                    out = run_replay([{"steps": [{"op": "okkhor", "text": text}]}])[0]["results"][0]["text"]
+                except Exception:
+                    raise Unsupported("conversion of %r not tabulated" % text)
+                self.conv_table[text] = out
+                r = [ord(ch) for ch in out]
+                self.memo[k] = r
+                return list(r)
         if self.concrete is not None:
             raise Unsupported("symbolic conversion in concrete mode")
         L = self.shape.get("conv_len", 1)
@@ -827,6 +835,8 @@ def conv_table_for(strings):
 
 
 SPECIAL_TERMS = ["\"\\\"", "'\\'", "\"^\"", "ab:`", "\"ab:`\"", ":`", "a`", "\"`\"", "a;", ";a", "\\", "a\\", "$", "\"$\"", "k`:", "a:b", "(a:`)"]
+# texts that are keys of the bundled auto-correct list as a whole, quotes included (the split word is only a part of them)
+QUOTED_AUTOCORRECT_TERMS = [":'(", ":-\"", "d'-'", ":\">", "d'_'", "md."]
 
 
 def special_term_shapes(terms, **kw):
@@ -837,9 +847,12 @@ def special_term_shapes(terms, **kw):
     for r in res:
         for p in r.get("parts", []):
             parts.add(p)
-    table = conv_table_for(list(parts) + list(terms))
     data = bundled_data()
+    extra = [data["autocorrect"][x] for x in list(parts) + list(terms) if x in data["autocorrect"]] if kw.get("real_autocorrect") else []
+    table = conv_table_for(list(parts) + list(terms) + extra)
     real = dict(emoticon=data["emoticon"], emoji_name=data["emoji_name"])
+    if kw.get("real_autocorrect"):
+        real["autocorrect"] = data["autocorrect"]
     shapes = []
     for t, r in zip(terms, res):
         d = dict(term=t, wlen=0, pre="", trail="", conv_table=table, real_tables=real, parts=r.get("parts"))
@@ -898,10 +911,13 @@ def run_suggest_obligation(check, name, shapes, required_covers, confirmers=None
             check.obligation(name + ":" + key, "mirsym", "inconclusive",
                              "counterexample under the data oracles was not re-found natively: %s" % describe_suggest(vs[0])[:500])
         else:
-            sc, obs, what, role = found
-            check.stats["traces_validated"] += 1
-            st = check.finding(role or key, what, dict(scenario=sc, observed=obs, solver_counterexample=vs[0]["inputs"]))
-            check.sample(dict(obligation=name, counterexample=vs[0]["inputs"], role=role or key))
+            st = "held"
+            for sc, obs, what, role in (found if isinstance(found, list) else [found]):
+                check.stats["traces_validated"] += 1
+                st1 = check.finding(role or key, what, dict(scenario=sc, observed=obs, solver_counterexample=vs[0]["inputs"]))
+                check.sample(dict(obligation=name, counterexample=vs[0]["inputs"], role=role or key))
+                if worst[st1] > worst[st]:
+                    st = st1
         if worst[st] > worst[status]:
             status = st
     check.obligation(name, "mirsym", status, detail + "; %d counterexample models" % len(vio))
@@ -969,6 +985,7 @@ def learn_search(vs):
             scs2.append({"steps": steps})
             meta.append((t, i, lst))
     out = run_replay_parallel(scs2)
+    found = {}
     for (t, i, lst), r in zip(meta, out):
         rr = r["results"]
         last = rr[-3]
@@ -983,8 +1000,9 @@ def learn_search(vs):
                     else "learned choice lost")
             what = "typed %r, committed candidate %d (%r); typed again: engine preselects %d (%r); store: %s" % (
                 t, i, lst[i], s2, l2[s2] if s2 < len(l2) else None, rr[-1].get("content"))
-            return {"steps": scs2[meta.index((t, i, lst))]["steps"]}, rr[-3:], what, role
-    return None
+            if role not in found:      # one finding per role: a listed known finding must not hide another kind of loss
+                found[role] = ({"steps": scs2[meta.index((t, i, lst))]["steps"]}, rr[-3:], what, role)
+    return list(found.values()) or None
 
 
 def survive_search(vs):
@@ -1155,27 +1173,41 @@ def autocorrect_search(vs):
 
 
 def duplicate_search(vs):
-    """Re-find 'a candidate text occurs twice' natively on texts whose word part transliterates to itself."""
+    """Re-find 'a candidate text occurs twice' natively; every kind of repeat found is returned with its own role (a repeat the
+    known-findings file lists does not hide another one): words that transliterate to themselves (raw English = transliteration), the one
+    word the bundled dictionary lists twice, auto-correct entries whose target is also a dictionary hit, suffix-built forms."""
     keys = char_keys()
-    texts = ["\"\\\"", "\\", "'\\'", "(\\)", "\\\\", "a\\", "k", "ami", "\"a\""]
+    data = bundled_data()
+    texts = ["\"\\\"", "\\", "'\\'", "(\\)", "\\\\", "a\\", "k", "ami", "\"a\"", "rajzokkhma", "rajjokkhma", "rajzokkhmar", "amra", "apni", "tumi", "boigulo", "kothagulo",
+             "asgulo", "bhalo", "kemon", "desher"]
+    texts += [k for k in list(data["autocorrect"])[:400] if k.isalnum() and k.isascii()][:120]
+    texts = [t for t in dict.fromkeys(texts) if all(ch in keys for ch in t)]
     scs = []
     meta = []
     for t in texts:
         for sq in (False, True):
             for en in (True, False):
                 cfg = {"layout": "avro_phonetic", "database": REPO + "/data", "opts": {"phonetic_suggestion": True, "english": en, "smart_quote": sq}}
-                scs.append({"steps": [{"op": "new", "config": cfg}] + [{"op": "key", "key": keys[ch], "sel": 0} for ch in t]})
+                scs.append({"steps": [{"op": "new", "config": cfg}] + [{"op": "key", "key": keys[ch], "sel": 0} for ch in t] + [{"op": "get_state"}]})
                 meta.append((t, sq, en))
-    res = run_replay(scs)
+    res = run_replay_parallel(scs)
+    found = {}
+    kinds = ["First", "Emoji", "Other", "Last"]
     for (t, sq, en), sc, r in zip(meta, scs, res):
-        last = r["results"][-1]
+        last = r["results"][-2]
         lst = last.get("suggestion", {}).get("list", [])
-        if len(set(lst)) != len(lst):
-            raw_dup = lst.count(t) > 1
-            role = ("assembly: the raw English candidate repeats the transliteration of a word that transliterates to itself" if raw_dup
-                    else "assembly: a candidate text occurs twice")
-            return sc, last, "typed %r (English %s, smart quotes %s) offers %s" % (t, en, sq, lst), role
-    return None
+        if len(set(lst)) == len(lst):
+            continue
+        ranks = r["results"][-1].get("state", {}).get("suggestions", [])
+        dup = next(x for x in lst if lst.count(x) > 1)
+        cls = sorted(kinds[k] + ("/raw" if kinds[k] == "Last" and n == 3 else "") for k, text, n in ranks if text == dup) if ranks else []
+        if lst.count(t) > 1 and "Last/raw" in cls:
+            role = "assembly: the raw English candidate repeats the transliteration of a word that transliterates to itself"
+        else:
+            role = "assembly: a candidate text occurs twice (%s)" % " and ".join(cls or ["?"])
+        if role not in found:
+            found[role] = (sc, last, "typed %r (English %s, smart quotes %s) offers %s: %r occurs %d times" % (t, en, sq, lst, dup, lst.count(dup)), role)
+    return list(found.values()) or None
 
 
 def obl_order(check, conv_table, thorough=False, budget_s=None):
@@ -1346,7 +1378,7 @@ def quote_pair_search(vs):
         return "".join(un.get(ord(ch), ch) for ch in t)
     words = ["sesh", "a", "\\", "smile", "k"]
     wraps = [("\"", "\""), ("'", "'"), ("\"", ""), ("", "'"), ("(\"", "\")"), ("\"'", "'\"")]
-    texts = [p + w + t for w in words for p, t in wraps] + SPECIAL_TERMS
+    texts = [p + w + t for w in words for p, t in wraps] + SPECIAL_TERMS + QUOTED_AUTOCORRECT_TERMS
     scs = []
     meta = []
     for t in texts:
@@ -1369,7 +1401,10 @@ def quote_pair_search(vs):
             continue
         lon, loff = on.get("suggestion", {}).get("list", []), off.get("suggestion", {}).get("list", [])
         son, soff = rr[states[0]]["state"]["prev_selection"], rr[states[1]]["state"]["prev_selection"]
-        same = len(lon) == len(loff) and all((a == b2) if a == t or b2 == t else (uncurl_s(a) == uncurl_s(b2)) for a, b2 in zip(lon, loff))
+        # every candidate equal after un-curling; the raw English candidate (last, English on, not ANSI) stays exactly as typed
+        same = len(lon) == len(loff) and all(uncurl_s(a) == uncurl_s(b2) for a, b2 in zip(lon, loff))
+        if same and en and not ansi and loff and loff[-1] == t and len(loff) > 1 and lon[-1] != t:
+            same = False
         if not same or son != soff:
             return sc, [on, off], "typed %r (English %s, ANSI %s): with smart quotes %s (preselection %d), without %s (preselection %d)" % (
                 t, en, ansi, lon, son, loff, soff), "smart quotes change the list beyond curling"
@@ -1380,6 +1415,7 @@ def obl_quote_pair(check, conv_table, thorough=False, budget_s=None):
     kw = dict(mode="quote_pair", dict_max=1, emoji_count=1, suffixes=False, selections=True, autocorrect=False, user_autocorrect=False, dist_mode="fixed")
     shapes = base_shapes(WRAPPERS_QUICK, [0, 1] + ([2] if thorough else []), conv_table, **kw)
     shapes += special_term_shapes(SPECIAL_TERMS, **kw)
+    shapes += special_term_shapes(QUOTED_AUTOCORRECT_TERMS, **dict(kw, autocorrect=True, real_autocorrect=True))
     check.bounds["quote_pairing"] = dict(word="0-1%s symbolic letters/digits" % ("/2" if thorough else ""), wrappers=[s["pre"] + "W" + s["trail"] for s in shapes][:10],
                                          data="0-1 dictionary word, emoji name / emoticon / learned selection present or absent", options="English, ANSI symbolic; smart quotes on vs off")
     run_suggest_obligation(check, "quote_pairing", shapes, ["cover:quote_pair"],
@@ -1479,6 +1515,44 @@ def make_only_phonetic(shape):
     return build, on_path
 
 
+def only_phonetic_history_search():
+    """Native: the suggestions-off answer after the same context composed other words, with the list option on or off (switched by
+    update_engine with the same layout, which keeps the method object): it must still be the conversion of the three parts."""
+    keys = char_keys()
+
+    def cfg(on):
+        return {"layout": "avro_phonetic", "database": REPO + "/data", "opts": {"phonetic_suggestion": on}}
+    histories = [[], [(False, "k")], [(True, "kot")], [(False, "k"), (True, "boi")], [(False, "k,")], [(True, "ami"), (False, "(")], [(True, "(k)")], [(False, "ami"), (False, "ami")]]
+    probes = ["(", "k", "a.", "(k)", ".", "kot", "ami", "k,"]
+    table = conv_table_for(["(", ")", ".", ",", "k", "a", "kot", "ami"])
+    parts_of = {}
+    for t, r in zip(probes, run_replay([{"steps": [{"op": "split", "text": t, "colon": False} for t in probes]}])[0]["results"]):
+        parts_of[t] = r["parts"]
+    scs, meta = [], []
+    for h in histories:
+        for t in probes:
+            steps = [{"op": "new", "config": cfg(h[0][0] if h else False)}]
+            mode = h[0][0] if h else False
+            for on, w in h:
+                if on != mode:
+                    steps.append({"op": "update", "config": cfg(on)})
+                    mode = on
+                steps += [{"op": "key", "key": keys[ch], "sel": 0} for ch in w] + [{"op": "finish"}]
+            if mode:
+                steps.append({"op": "update", "config": cfg(False)})
+            steps += [{"op": "key", "key": keys[ch], "sel": 0} for ch in t]
+            scs.append({"steps": steps})
+            meta.append((h, t))
+    for (h, t), sc, r in zip(meta, scs, run_replay_parallel(scs)):
+        last = r["results"][-1]
+        want = "".join(table.get(p, "") if p else "" for p in parts_of[t])
+        got = last.get("suggestion", {}).get("text")
+        if "panic" in last or got != want:
+            hist = ", ".join("%r with the list %s" % (w, "on" if on else "off") for on, w in h) or "nothing"
+            return (sc, last, "one context composed %s; then, suggestions off, typed %r gives %r; the conversion of its three parts %s is %r" % (hist, t, got, parts_of[t], want))
+    return None
+
+
 def obl_only_phonetic(check, max_n, budget_s=None):
     shapes = [dict(n=n) for n in range(1, max_n + 1)]
     check.bounds["only_phonetic"] = dict(text="1..%d symbolic characters over letters/digits + the 27 punctuation characters" % max_n,
@@ -1513,6 +1587,8 @@ def obl_only_phonetic(check, max_n, budget_s=None):
             found = (sc, rr[-2:], "typed %r with suggestions off gives %r, conversion of the three parts %r gives %r" % (
                 "".join(parts), got, parts, want))
             break
+    if found is None:
+        found = only_phonetic_history_search()
     if found is None:
         check.obligation("only_phonetic_glue", "mirsym", "inconclusive", "counterexample not re-found natively: %s" % json.dumps(vio[0]["inputs"], ensure_ascii=False)[:300])
     else:
